@@ -11,7 +11,7 @@ import (
 
 func gen(r *vh.Rand) string {
 	// real sockets: mostly in the thorough tier (the corpus keeps a fixed set in the quick tier)
-	if (vh.Thorough && r.Chance(1, 8)) || (!vh.Thorough && r.Chance(1, 40)) {
+	if (vh.Thorough && r.Chance(1, 25)) || (!vh.Thorough && r.Chance(1, 40)) {
 		return sim.GenProxy(r) // websocket / stream proxy bookkeeping (second op stream)
 	}
 	k := sim.Knobs{MaxReqs: 4, Interleave: true, FinishPct: 12, ErrPct: 55, ReplacePct: 10, PanicPermille: 12}
